@@ -252,3 +252,10 @@ def oracle(line, out):
 
 
 known_match = common.no_known
+
+
+def literal_ops(lit):
+    yield "vi_enc %d" % lit
+    if lit <= 700:
+        yield "scr_raw d" + "ab" * lit if lit else "scr_raw o0"
+        yield "scr_ser o172,d" + "cd" * lit if lit else "scr_ser o172"
